@@ -185,9 +185,23 @@ func message2Chunks(message []byte, header *base.RtmpHeader, prevHeader *base.Rt
 
 // copyBufferFromBuffers
 //
+// 将`bs`看成一块连续的内存，跳过前`pos`个字节，拷贝`length`个字节到`out`中
+//
 // TODO(chef): [refactor] move to naza 202206
-// TODO(chef): [perf] impl me
 func copyBufferFromBuffers(out []byte, bs net.Buffers, pos int, length int) {
+	for _, b := range bs {
+		if length == 0 {
+			return
+		}
+		if pos >= len(b) {
+			pos -= len(b)
+			continue
+		}
+		n := copy(out[:length], b[pos:])
+		out = out[n:]
+		length -= n
+		pos = 0
+	}
 }
 
 func message2ChunksV(message net.Buffers, header *base.RtmpHeader, prevHeader *base.RtmpHeader, chunkSize int) []byte {
